@@ -376,12 +376,22 @@ func zzMustTime(v starlark.Value, err error, id string) (sec, nsec int64) {
 // (t + d) - d == t, (t2 - t1) + t1 == t2, t + d == d + t, and the duration group
 // laws d1 + d2 - d2 == d1, d1 - d2 + d2 == d1 (which hold even when the
 // intermediate sum wraps). Times as in zzSymTime; d any int64 except the minimum
-// (whose negation is the known time_minus_dur finding); t2 = t1 + d0 with any d0.
+// (whose negation is the known time_minus_dur finding); t2 = t1 + d0 with |d0| < 2^61 ns.
 //
 //verif:unwind 40
-//verif:timeout 240000
-func zzH19_algebra() {
-	switch zzChoice("law", 4) {
+func zzH19_algebra_add_sub() { zzAlgebra(0) }
+
+//verif:unwind 40
+func zzH19_algebra_sub_add() { zzAlgebra(1) }
+
+//verif:unwind 40
+func zzH19_algebra_commute() { zzAlgebra(2) }
+
+//verif:unwind 40
+func zzH19_algebra_dur() { zzAlgebra(3) }
+
+func zzAlgebra(law int) {
+	switch law {
 	case 0: // (t + d) - d == t
 		zzRelDivMode(2)
 		t, sec, nsec := zzSymTime("t")
@@ -399,6 +409,7 @@ func zzH19_algebra() {
 		zzRelDivMode(1)
 		t1, s1, n1 := zzSymTime("t1")
 		d0 := zzI64("d0")
+		zzAssume(zzAnd(d0 > -zzWin, d0 < zzWin))
 		t2v := time.Time(t1).Add(time.Duration(d0))
 		t2 := Time(t2v)
 		s2, n2 := zzPair(t2v)
@@ -525,11 +536,18 @@ func zzH19_order() {
 // quotients by 10^6, 10^3, 1.
 //
 //verif:unwind 40
-//verif:timeout 240000
-func zzH19_attrs() {
+func zzH19_attrs_time() { zzAttrs(0) }
+
+//verif:unwind 40
+func zzH19_attrs_from_timestamp() { zzAttrs(1) }
+
+//verif:unwind 40
+func zzH19_attrs_dur() { zzAttrs(2) }
+
+func zzAttrs(what int) {
 	zzRelDivMode(2)
 	th := &starlark.Thread{Name: "zz"}
-	switch zzChoice("what", 3) {
+	switch what {
 	case 0:
 		t, sec, nsec := zzSymTime("t")
 		for i, name := range []string{"unix", "nanosecond", "unix_nano"} {
